@@ -4,6 +4,7 @@ id=$1; v=$2; shift 2
 props=${@:-$id}
 wt=/tmp/wt/$id
 dir=/verif/seeded/$id-$v; [ -d $dir ] || dir=/tmp/seeds/$id/$v
+[ -d $wt ] || git -C /repo worktree add -q --detach $wt HEAD
 cd $wt && git checkout -q -- . && git apply $dir/patch.diff || { echo "APPLY-FAILED $id $v"; exit 3; }
 for p in $props; do
   VERIF_EVIDENCE_DIR=/tmp/evid_scratch /verif/check $p --repo $wt > /tmp/evid_scratch_$id$v$p.log 2>&1; rc=$?
@@ -11,3 +12,4 @@ for p in $props; do
   grep -E "^(BAD|ANALYSIS-ERROR)|^  cryocat" /tmp/evid_scratch_$id$v$p.log | head -${SEEDRUN_LINES:-6}
 done
 cd $wt && git checkout -q -- .
+git -C /repo worktree remove --force $wt
